@@ -58,6 +58,13 @@ impl VisitorMut for Normalise {
             other => other,
         }
     }
+    // statement boundaries are part of the meaning (`a = b` / `(f)()` is not `a = b(f)()`): every statement gets a `;`, so that the token
+    // stream shows where statements end whether or not the source had a semicolon
+    fn visit_block_end(&mut self, b: full_moon::ast::Block) -> full_moon::ast::Block {
+        let stmts: Vec<_> = b.stmts_with_semicolon().map(|(s, _)| (s.clone(), Some(sym(";")))).collect();
+        let last = b.last_stmt_with_semicolon().map(|(l, _)| (l.clone(), Some(sym(";"))));
+        b.with_stmts(stmts).with_last_stmt(last)
+    }
     // separators of a table constructor (`,` / `;`, trailing or not) may change
     fn visit_table_constructor_end(&mut self, t: full_moon::ast::TableConstructor) -> full_moon::ast::TableConstructor {
         use full_moon::ast::punctuated::{Pair, Punctuated};
@@ -68,6 +75,22 @@ impl VisitorMut for Normalise {
             fields.push(if i + 1 < n { Pair::new(v, Some(sym(","))) } else { Pair::new(v, None) });
         }
         t.with_fields(fields)
+    }
+    // separators of a Luau table type, likewise
+    fn visit_type_info_end(&mut self, t: full_moon::ast::luau::TypeInfo) -> full_moon::ast::luau::TypeInfo {
+        use full_moon::ast::punctuated::{Pair, Punctuated};
+        match t {
+            full_moon::ast::luau::TypeInfo::Table { braces, fields } => {
+                let n = fields.len();
+                let mut out = Punctuated::new();
+                for (i, pair) in fields.into_pairs().enumerate() {
+                    let v = pair.into_value();
+                    out.push(if i + 1 < n { Pair::new(v, Some(sym(","))) } else { Pair::new(v, None) });
+                }
+                full_moon::ast::luau::TypeInfo::Table { braces, fields: out }
+            }
+            other => other,
+        }
     }
     // `f"s"` / `f{t}` and `f("s")` / `f({t})` are the same call
     fn visit_function_args_end(&mut self, a: full_moon::ast::FunctionArgs) -> full_moon::ast::FunctionArgs {
@@ -124,8 +147,7 @@ fn normal_form(ast: Ast) -> (Vec<String>, Vec<String>) {
     for tr in ast.nodes().tokens().chain(std::iter::once(ast.eof())) {
         classify(tr.token(), &mut toks, &mut ignore2);
     }
-    // semicolons and table separators / trailing commas are allowed to differ
-    let toks = toks.into_iter().filter(|t| t != ";").collect();
+    // (semicolons: one behind every statement, see visit_block_end; table separators: normalised by visit_table_constructor_end)
     (toks, comments)
 }
 
